@@ -257,11 +257,25 @@ def run(case):
     n = case['n_nodes'] + len(refs)
     mon.reset(budget=100 * n * n + 10000)
     verif_targets.reset()
+    ctx = None
+    used = random.Random(util.sig(texts)).random()
+    if used < 0.3:
+        # a context that has been used before: first a build over the same paths holding other values (the reference-free twin),
+        # which in two thirds of the cases fails during evaluation after most paths were evaluated; nothing of it may be seen afterwards
+        import re
+        from awesomeyaml.eval_context import EvalContext
+        ctx = EvalContext()
+        twin = [re.sub(r'!(xref|ref) "[^"]*"', '"STALE"', t) for t in texts]
+        fails = used < 0.2
+        pre = lib.outcome(lambda: lib.build(twin + (['zz_fail: !xref "no.such.path"\n'] if fails else []), eval_ctx=ctx))
+        feats.append('context_used_before_' + ('failed' if pre[0] == 'err' else 'built'))
+        mon.reset(budget=100 * n * n + 10000)
+        verif_targets.reset()
     try:
         if case['two_sources'] or len(texts) == 1:
-            got = lib.outcome(lambda: lib.build_via(texts, case.get('route', 'config')))
+            got = lib.outcome(lambda: lib.build_via(texts, case.get('route', 'config'), eval_ctx=ctx))
         else:
-            got = lib.outcome(lambda: lib.build([''.join(t if t.startswith('--- ') else '---\n' + t for t in texts)]))
+            got = lib.outcome(lambda: lib.build([''.join(t if t.startswith('--- ') else '---\n' + t for t in texts)], eval_ctx=ctx))
     except monitors.StepBudgetExceeded as e:
         _counts['budget_exceeded'] += 1
         _counts['monitored_steps'] += mon.total
